@@ -7,7 +7,7 @@
 //	<-ch      -> zvs.Recv(ch)   /  v, ok := <-ch -> zvs.Recv2(ch)
 //	close(ch) -> zvs.Close(ch); time.Sleep -> zvs.Sleep
 //	select    -> explorer-prioritised non-blocking attempts + native blocking fallback
-//	for ...   -> zvs.Loop() as first statement of the body (spin detection)
+//	for ...   -> zvs.Loop() as first statement of the body (spin detection); also at every function entry
 //
 // Anything it does not understand is an error (exit 2), never silently kept.
 //
@@ -435,6 +435,13 @@ func rewriteFile(path string) (string, map[string]int, []string) {
 	for _, d := range f.Decls {
 		if gd, ok := d.(*ast.GenDecl); ok && gd.Tok == token.IMPORT {
 			continue
+		}
+		if fd, ok := d.(*ast.FuncDecl); ok && fd.Body != nil {
+			// function entries count as loop back-edges too: a caller outside the rewritten
+			// packages (a third-party parser) may be the one that loops
+			r.stats["funcentry"]++
+			o := r.off(fd.Body.Lbrace) + 1
+			edits = append(edits, edit{o, o, " zvs.Loop(); "})
 		}
 		r.collect(d, &edits)
 	}
